@@ -22,6 +22,9 @@ pub struct PaddingFactory {
     md5: String,
 }
 
+/// Largest record payload size a scheme line can request (frame length fields are 16 bits)
+const MAX_RECORD_PAYLOAD_SIZE: i64 = u16::MAX as i64;
+
 /// Global padding factory
 static DEFAULT_FACTORY: std::sync::OnceLock<Arc<PaddingFactory>> = std::sync::OnceLock::new();
 
@@ -111,6 +114,11 @@ impl PaddingFactory {
                 if min_val <= 0 || max_val <= 0 {
                     continue;
                 }
+
+                // A record size is carried in 16-bit frame length fields: larger values
+                // cannot be honoured (and must not wrap when narrowed below)
+                let min_val = min_val.min(MAX_RECORD_PAYLOAD_SIZE);
+                let max_val = max_val.min(MAX_RECORD_PAYLOAD_SIZE);
 
                 let (min_val, max_val) = (min_val.min(max_val), min_val.max(max_val));
 
